@@ -176,7 +176,16 @@ pub fn t2(prop: &str, seed: u64) -> RunDesc {
             reader.push(o(K::WsUpgrade, 0, 0, 0, 0));
         }
     }
-    reader.extend([o(K::DerefSnap, 0, 0, 0, 0), o(K::Signal, 6, 0, 0, 0), o(K::Await, 5, 0, 0, 0), o(K::DerefSnap, 0, 0, 0, 0), o(K::Unpin, 0, 0, 0, 0)]);
+    reader.extend([o(K::DerefSnap, 0, 0, 0, 0), o(K::Signal, 6, 0, 0, 0)]);
+    // the pinned reader itself tries to advance the clock (what every 64th deferral does): its own
+    // announcement has to hold it back like anybody else's
+    let self_advance = rng.chance(0.3);
+    if self_advance {
+        for _ in 0..3 + rng.below(4) {
+            reader.push(o(K::TryAdvance, 0, 0, 0, 0));
+        }
+    }
+    reader.extend([o(K::Await, 5, 0, 0, 0), o(K::DerefSnap, 0, 0, 0, 0), o(K::Unpin, 0, 0, 0, 0)]);
     let reader_first = source == 1 || source == 2 || rng.chance(0.3);
     // retire the parent (and unlink X from ROOT[0] where it was put there)
     let mut retire = vec![];
@@ -207,7 +216,7 @@ pub fn t2(prop: &str, seed: u64) -> RunDesc {
         let n = noise(&mut rng, 2, &d.cfg);
         d.threads.push(n);
     }
-    d.params = J::obj().set("template", "T2 reader pinned across a cascade").set("child_prestamped", prestamp).set("snapshot_source", source).set("link_age_rounds", age).set("rounds_before_reader", m).set("rounds_after", m2).set("reader_first", reader_first);
+    d.params = J::obj().set("template", "T2 reader pinned across a cascade").set("child_prestamped", prestamp).set("snapshot_source", source).set("link_age_rounds", age).set("rounds_before_reader", m).set("rounds_after", m2).set("reader_first", reader_first).set("reader_tries_to_advance", self_advance);
     d
 }
 
@@ -475,32 +484,76 @@ pub fn t9(prop: &str, seed: u64) -> RunDesc {
     t.stack_kib = 2048;
     d.threads.push(t);
     d.threads.push(thread(1, "age", rounds(rng.below(5) as usize)));
-    // releaser: unlinks the head, then helps collecting
-    let mut a = vec![o(K::Pin, 0, 0, 0, 0), o(K::Store, ROOT1, NONE_SLOT, 0, 0), o(K::Flush, 0, 0, 0, 0), o(K::Unpin, 0, 0, 0, 0)];
-    a.extend(rounds(6 + rng.below(6) as usize));
-    let mut t = thread(2, "releaser", a);
-    t.stack_kib = 2048;
-    d.threads.push(t);
-    for i in 0..2 {
-        let mut c = rounds(8 + rng.below(10) as usize);
-        if i == 0 {
-            c.push(o(K::Signal, 6, 0, 0, 0));
+    // variant B: the head's destruction is expired but still queued when the reader enters its
+    // critical section, and the reader itself flushes repeatedly while it holds its Snapshot and
+    // a deferred function of its own. `flush` only schedules a collection for the last unpin; a
+    // collection inside the critical section would run the cascade there and re-announce the
+    // reader every 128 nodes while the tickers drive the clock.
+    let flush_inside = rng.chance(0.35);
+    let hold = rng.chance(0.7);
+    if flush_inside {
+        d.cfg.signal_depth = 0;
+        let mut t = thread(2, "releaser", vec![o(K::Pin, 0, 0, 0, 0), o(K::Store, ROOT1, NONE_SLOT, 0, 0), o(K::Flush, 0, 0, 0, 0), o(K::Unpin, 0, 0, 0, 0), o(K::Signal, 8, 0, 0, 0)]);
+        t.stack_kib = 2048;
+        d.threads.push(t);
+        let mut adv = vec![o(K::Await, 8, 0, 0, 0)];
+        for _ in 0..4 + rng.below(2) {
+            adv.extend([o(K::Pin, 0, 0, 0, 0), o(K::TryAdvance, 0, 0, 0, 0), o(K::Unpin, 0, 0, 0, 0)]);
         }
-        let mut t = thread(2, "ticker", c);
+        adv.push(o(K::Signal, 7, 0, 0, 0));
+        d.threads.push(thread(2, "advance", adv));
+        for i in 0..2 {
+            let mut c = vec![o(K::Await, 9, 0, 0, 0)];
+            c.extend(rounds(10 + rng.below(10) as usize));
+            if i == 0 {
+                c.push(o(K::Signal, 6, 0, 0, 0));
+            }
+            let mut t = thread(2, "ticker", c);
+            t.stack_kib = 2048;
+            d.threads.push(t);
+        }
+        let mut r = vec![
+            o(K::Await, 7, 0, 0, 0),
+            o(K::Pin, 0, 0, 0, 0),
+            o(K::Load, ROOT0, 0, 0, 0),
+            o(K::Store, ROOT0, NONE_SLOT, 0, 0),
+            o(K::Defer, 0, rng.below(10) as u32, 0, 0),
+            o(K::Signal, 9, 0, 0, 0),
+        ];
+        for _ in 0..2 + rng.below(4) {
+            r.extend([o(K::Flush, 0, 0, 0, 0), o(K::DerefSnap, 0, 0, 0, 0)]);
+        }
+        r.extend([o(K::Await, 6, 0, 0, 0), o(K::DerefSnap, 0, 0, 0, 0), o(K::Unpin, 0, 0, 0, 0)]);
+        let mut t = thread(2, "reader", r);
+        t.stack_kib = 2048;
+        d.threads.push(t);
+    } else {
+        // releaser: unlinks the head, then helps collecting
+        let mut a = vec![o(K::Pin, 0, 0, 0, 0), o(K::Store, ROOT1, NONE_SLOT, 0, 0), o(K::Flush, 0, 0, 0, 0), o(K::Unpin, 0, 0, 0, 0)];
+        a.extend(rounds(6 + rng.below(6) as usize));
+        let mut t = thread(2, "releaser", a);
+        t.stack_kib = 2048;
+        d.threads.push(t);
+        for i in 0..2 {
+            let mut c = rounds(8 + rng.below(10) as usize);
+            if i == 0 {
+                c.push(o(K::Signal, 6, 0, 0, 0));
+            }
+            let mut t = thread(2, "ticker", c);
+            t.stack_kib = 2048;
+            d.threads.push(t);
+        }
+        let mut r = vec![o(K::Await, 7, 0, 0, 0), o(K::Pin, 0, 0, 0, 0), o(K::Load, ROOT0, 0, 0, 0), o(K::Store, ROOT0, NONE_SLOT, 0, 0), o(K::DerefSnap, 0, 0, 0, 0)];
+        if hold {
+            r.push(o(K::Await, 6, 0, 0, 0));
+        }
+        r.extend([o(K::DerefSnap, 0, 0, 0, 0), o(K::Unpin, 0, 0, 0, 0)]);
+        let mut t = thread(2, "reader", r);
         t.stack_kib = 2048;
         d.threads.push(t);
     }
-    let hold = rng.chance(0.7);
-    let mut r = vec![o(K::Await, 7, 0, 0, 0), o(K::Pin, 0, 0, 0, 0), o(K::Load, ROOT0, 0, 0, 0), o(K::Store, ROOT0, NONE_SLOT, 0, 0), o(K::DerefSnap, 0, 0, 0, 0)];
-    if hold {
-        r.push(o(K::Await, 6, 0, 0, 0));
-    }
-    r.extend([o(K::DerefSnap, 0, 0, 0, 0), o(K::Unpin, 0, 0, 0, 0)]);
-    let mut t = thread(2, "reader", r);
-    t.stack_kib = 2048;
-    d.threads.push(t);
     d.cfg.step_cap = 3_000_000;
-    d.params = J::obj().set("template", "T9 late stamp deep inside a long cascade").set("len", len).set("signal_depth", d.cfg.signal_depth).set("hold", hold);
+    d.params = J::obj().set("template", "T9 late stamp deep inside a long cascade").set("len", len).set("signal_depth", d.cfg.signal_depth).set("hold", hold).set("reader_flushes_inside_cs", flush_inside);
     d
 }
 
@@ -678,6 +731,11 @@ pub fn w(prop: &str, seed: u64) -> RunDesc {
     let prov = rng.below(3);
     // the cell content: a Weak that went through an AtomicRc (stamped) or not
     let stamped_content = rng.chance(0.7);
+    // the cell under test: the shared WROOT[0], or the weak field of a fresh private node that was
+    // filled through get_mut() / From<Weak> (no concurrent writers then)
+    let private_cell = rng.chance(0.2);
+    let fill = 5 + rng.below(2) as u32;
+    let cellw = if private_cell { 130 } else { WROOT0 };
     let mut v = vec![o(K::New, 0, NONE_SLOT, 1, 0), o(K::New, 4, NONE_SLOT, 2, 0), o(K::Pin, 0, 0, 0, 0)];
     v.extend(rounds(0));
     if stamped_content {
@@ -685,11 +743,15 @@ pub fn w(prop: &str, seed: u64) -> RunDesc {
     } else {
         v.push(o(K::Downgrade, 0, 0, 0, 0));
     }
-    v.push(o(K::StoreW, WROOT0, 0, 0, 0));
+    if private_cell {
+        v.push(o(K::New, 3, 0, 5, fill));
+    } else {
+        v.push(o(K::StoreW, WROOT0, 0, 0, 0));
+    }
     v.push(o(K::Signal, 1, 0, 0, 0));
     // expected
     match prov {
-        0 => v.push(o(K::LoadW, WROOT0, 0, 0, 0)),
+        0 => v.push(o(K::LoadW, cellw, 0, 0, 0)),
         1 => {
             // downgraded from a Snapshot loaded from an AtomicRc (possibly at another epoch)
             if !stamped_content {
@@ -705,9 +767,9 @@ pub fn w(prop: &str, seed: u64) -> RunDesc {
     let attempts = 1 + rng.below(4);
     for i in 0..attempts {
         match which {
-            0 => v.push(o(K::CasW, WROOT0, 0, 2, 0)),
-            1 => v.push(o(K::CasW, WROOT0, 0, 2, 1)),
-            _ => v.push(o(K::CasTagW, WROOT0, 0, 1 + rng.below(3) as u32, 0)),
+            0 => v.push(o(K::CasW, cellw, 0, 2, 0)),
+            1 => v.push(o(K::CasW, cellw, 0, 2, 1)),
+            _ => v.push(o(K::CasTagW, cellw, 0, 1 + rng.below(3) as u32, 0)),
         }
         if i + 1 < attempts {
             // try again with the same (stale-stamped) expected after the flipper had a turn
@@ -719,10 +781,10 @@ pub fn w(prop: &str, seed: u64) -> RunDesc {
             v.push(o(K::Downgrade, 4, 2, 0, 0));
         }
     }
-    v.push(o(K::LoadW, WROOT0, 0, 2, 0));
+    v.push(o(K::LoadW, cellw, 0, 2, 0));
     v.push(o(K::Unpin, 0, 0, 0, 0));
     d.threads.push(thread(0, "actor", v));
-    if rng.chance(0.6) {
+    if !private_cell && rng.chance(0.6) {
         // a concurrent writer flipping the cell between weak pointers to P and to another object
         let mut c = rounds(rng.below(3) as usize);
         c.extend([o(K::New, 0, NONE_SLOT, 3, 0), o(K::Downgrade, 0, 0, 0, 0), o(K::Pin, 0, 0, 0, 0)]);
@@ -732,7 +794,7 @@ pub fn w(prop: &str, seed: u64) -> RunDesc {
         c.push(o(K::Unpin, 0, 0, 0, 0));
         d.threads.push(thread(0, "flipper", c));
     }
-    let restamper = rng.chance(0.5);
+    let restamper = !private_cell && rng.chance(0.5);
     if restamper {
         // a concurrent re-stamper: swaps in weak pointers to the *same* object and tag, each
         // carrying another internal stamp (they went through an AtomicRc at different epochs)
@@ -753,7 +815,7 @@ pub fn w(prop: &str, seed: u64) -> RunDesc {
         }
         d.threads.push(thread(0, "restamper", c));
     }
-    d.params = J::obj().set("template", "W expected-provenance for AtomicWeak CAS").set("restamper", restamper).set("provenance", prov).set("stamped_content", stamped_content).set("op", which);
+    d.params = J::obj().set("template", "W expected-provenance for AtomicWeak CAS").set("restamper", restamper).set("private_cell_filled_by", if private_cell { if fill == 5 { "get_mut" } else { "From<Weak>" } } else { "" }).set("provenance", prov).set("stamped_content", stamped_content).set("op", which);
     d
 }
 
